@@ -392,6 +392,10 @@ func init() {
 			case 5:
 				o := validateNum("1", a)
 				w.Write(map[string]interface{}{"op": "int", "a": bytesToInts([]byte(a)), "ok": o.OK, "code": o.Code, "kind": o.Kind, "schema": "1"})
+				// the same question asked through additionalProperties: "integer" (another classifier in the code)
+				sch := "{} // {additionalProperties: \"integer\"}"
+				o = validateNum(sch, "{\"n\": "+a+"}")
+				w.Write(map[string]interface{}{"op": "int", "a": bytesToInts([]byte(a)), "ok": o.OK, "code": o.Code, "kind": o.Kind, "schema": sch})
 			}
 		}
 		return 0
